@@ -77,7 +77,7 @@ class Equiv:
         kb = self.idmap.get(id(vb))
         if kb is None:
             # body object is fresh: the spec object must be fresh too (not one of the spec inputs)
-            fresh_spec = all(vs is not o for k_, o in self.idmap.items() if k_ != "__stores__")
+            fresh_spec = all(vs is not o for k_, o in self.idmap.items() if k_ not in ("__stores__", "__keepalive__"))
             self.ob(label + ".identity", z3.BoolVal(fresh_spec))
         else:
             self.ob(label + ".identity", z3.BoolVal(kb is vs))
@@ -212,6 +212,11 @@ def build_idmap(a, b, out=None):
     out = {} if out is None else out
     if id(a) in out:
         return out
+    # the map is keyed by id(): every key object must stay ALIVE for the whole task, otherwise CPython may hand its address to a
+    # fresh object (a body that rebinds a field drops the old view object) and a fresh result would be mistaken for an input
+    out.setdefault("__keepalive__", []).append(a)
+    if isinstance(a, NDArr):
+        out["__keepalive__"].append(a.store)
     if isinstance(a, NDArr) and isinstance(b, NDArr):
         out[id(a)] = b
         out[id(a.store)] = b.store
